@@ -37,7 +37,7 @@ META = {
 
 
 def conditions(tier: str, seed: int) -> list[dict]:
-    res = c17.QUICK_RES if tier == "quick" else c17.SUPPORTED
+    res = c17.QUICK_RES if tier == "quick" else c17.THOROUGH_RES
     cs = [{"name": "translit_grid", "bounds": "concrete grid: transliteration vs freshly built extension", "timeout": 300, "weight": 500}]
     for r in res:
         cs.append({"name": f"diff_sb[r={r}]", "bounds": f"L<=2**31, -2**19<=i<=2**31/r, t in [-2**31,2**32], r={r}", "timeout": 200})
